@@ -260,6 +260,9 @@ Definition track (c : smcfg) (m : mon) (o : op) (r : out) : mon :=
       if Bool.eqb (m_enc m) b then m else set_m_link (set_m_enc m b) (expected_status c m)
   | Reset a, ODone =>
       mkm false PIdle (a mod 256) (m_passkey m) mleg0 mles0 [] false false no_key mdist0 (m_db m)
+  | Bond a ediv rnd kb, ODone =>
+      (* the application adds a bond to its data base: the copy follows *)
+      set_m_db m (db_store D (m_db m) (remote_addr a) (repeat (kb mod 256) 16) rnd ediv)
   | _, _ => m
   end.
 
@@ -268,7 +271,7 @@ Definition shape_ok (o : op) (r : out) : bool :=
   match o, r with
   | In _, OResp _ _ | Out, OResp _ _ => true
   | Yes, ODone | Yes, ONoPending | Yes, OFault | No, ODone | No, ONoPending | No, OFault => true
-  | Passkey _, ODone | Enc _, ODone | Reset _, ODone => true
+  | Passkey _, ODone | Enc _, ODone | Reset _, ODone | Bond _ _ _ _, ODone => true
   | Key _ _, OKey _ => true
   | Status, OStatus _ _ => true
   | _, _ => false
